@@ -196,6 +196,32 @@ def variants(program):
                                                attr='MISSING', ctx=n.ctx))
     add('rko-from-wrong-outcome', 'mutant', rko_success, {'COUNT-SHAPE'})
 
+    def worst_status(tree):
+        klass = find_func(tree, 'TestResultStatsTasks')
+        klass.body.extend(parse_stmts(
+            'def worst_status(self):\n'
+            '    return max(status for status, items in '
+            'self.classify.items() if items)\n'))
+        fun = find_func(tree, 'TestResultStatsTasks.__bool__')
+        return replace_first(
+            fun, lambda n: isinstance(n, ast.Return),
+            lambda n: ast.Return(value=parse_expr(
+                'self.worst_status() == TaskStatus.DONE')))
+    add('verdict-as-worst-status', 'mutant', worst_status, {'VERDICT-KEYS'},
+        note='seeded C18-2: WAITING and PENDING sort below DONE: a summary '
+             'with unfinished tasks is reported successful')
+
+    def unfiltered_subindex(tree):
+        fun = find_func(tree, 'TestStatsTestsByLabels._rloop_over_labels')
+        return replace_first(
+            fun, lambda n: isinstance(n, ast.Call) and txt(n) ==
+            'index.keep_only(labset)',
+            lambda n: parse_expr('index if len(index[label]) == 1 else '
+                                 'index.keep_only(labset)'))
+    add('single-valued-label-not-filtered', 'mutant', unfiltered_subindex,
+        {'COUNT-SHAPE'}, note='seeded C18-1: results lacking the label are '
+        'counted at the deeper levels')
+
     # ---- twins
     def elif_form(tree):
         fun = find_func(tree, 'TestStatsTests.evaluate')
